@@ -37,7 +37,7 @@ for d in sorted(glob.glob(os.path.join(V, "seeded", "C*"))):
     extra = ""
     nf = os.path.join(d, "note.txt")
     if os.path.exists(nf): extra = " — " + open(nf).read().strip()
-    out.append("| %s | %s | %s | %s (%s tier)%s |" % (os.path.basename(d), str(m.get("what", ""))[:260].replace("|", "/").replace("\n", " "),
+    out.append("| %s | %s | %s | %s (%s tier)%s |" % (os.path.basename(d).replace("-r2", " (2nd)"), str(m.get("what", ""))[:260].replace("|", "/").replace("\n", " "),
                                                      str(m.get("needs", ""))[:200].replace("|", "/").replace("\n", " "), ", ".join(res), r.get("tier", "quick"), extra))
 out.append("")
 out.append("## 10. Cost" + open(os.path.join(V, "design_src", "tail.md")).read().split("## 10. Cost")[1])
